@@ -10,6 +10,7 @@
 #include <occa/functional.hpp>
 #include <occa/loops.hpp>
 #include <memory>
+#include <sys/time.h>
 #include <sstream>
 #include <vector>
 
@@ -318,10 +319,26 @@ static std::string loopOp(const mj::Value &g) {
   return s + "],\"outside\":" + std::to_string(h[ncell]) + "}";
 }
 
+// Watchdogs.  A step may spend minutes of WALL time in the JIT compiler on a loaded machine (child
+// processes), so the wall-clock alarm of replay_core is set very generously; a runaway loop in the
+// implementation burns CPU time of THIS process, which ITIMER_PROF measures independently of the load.
+static void on_cpu_limit(int) { rc::crash_line("TIMEOUT"); _exit(70); }
+static void cpu_watchdog(unsigned seconds) {
+  struct itimerval t;
+  memset(&t, 0, sizeof t);
+  t.it_value.tv_sec = seconds;
+  setitimer(ITIMER_PROF, &t, 0);
+}
+
 int main(int argc, char **argv) {
   rc::init(argc, argv);
+  {
+    struct sigaction sa; memset(&sa, 0, sizeof sa); sa.sa_handler = on_cpu_limit;
+    sigaction(SIGPROF, &sa, 0);
+  }
+  const unsigned stepCpu = getenv("C23_STEP_CPU") ? (unsigned)atoi(getenv("C23_STEP_CPU")) : 90;
   const char *mode = getenv("C23_MODE") ? getenv("C23_MODE") : "Serial";
-  const unsigned stepTimeout = getenv("C23_STEP_TIMEOUT") ? (unsigned)atoi(getenv("C23_STEP_TIMEOUT")) : 120;
+  const unsigned stepTimeout = getenv("C23_STEP_TIMEOUT") ? (unsigned)atoi(getenv("C23_STEP_TIMEOUT")) : 3600;
   dev = occa::device({{"mode", std::string(mode)}});
   std::string line;
   while (rc::next(line)) {
@@ -332,6 +349,7 @@ int main(int argc, char **argv) {
     for (size_t j = 0; j < steps.size(); ++j) {
       rc::step(j);
       rc::watchdog(stepTimeout);
+      cpu_watchdog(stepCpu);
       const mj::Value &s = steps[j];
       const std::string &a = s["a"].str();
       const mj::Value &g = s["args"];
@@ -360,6 +378,7 @@ int main(int argc, char **argv) {
         if (err.size() > 300) err = err.substr(0, 300);
       }
       rc::watchdog(0);
+      cpu_watchdog(0);
       if (j) out += ",";
       out += "{\"v\":" + v + ",\"err\":" + mj::quote(err) + "}";
     }
